@@ -16,7 +16,7 @@ NOT_APPLICABLE = {
 # property -> (engine, category, technique, text, note, design_ref)
 CLAIMED = {
     'C13': ('slices', 'other', 'abstraction of each dispatch loop to a guarded polynomial recurrence (path-sensitive symbolic execution of the loop body by the shape engine) whose partition properties are checked for every (rows, threads) pair of the bound; ownership rule over worker stores; create/join pairing; worker bounds under dispatcher-established facts',
-            'Decides the partition/ownership/join clauses: for all 10 range-slicing dispatch loops (running-offset and closed-form block schemes) and every (rows, threads) pair up to the bound (thorough: rows 0..40 x threads 1..24, the property quantifier) the worker ranges start at 0, are contiguous, stay within the extent and end at it -- every row is processed by exactly one worker; workers write shared storage only at their own indices; condensed vectors have (n*n-n)/2 cells; threads are joined before their arguments are freed. Numeric agreement with the sequential kernels, metric axioms and bijectivity of the condensed index map are NOT decided.',
+            'Decides the partition/ownership/join clauses: for all 10 range-slicing dispatch loops (running-offset and closed-form block schemes) and every (rows, threads) pair up to the bound (thorough: rows 0..40 x threads 1..24, the property quantifier) the worker ranges start at 0, are contiguous, stay within the extent and end at it -- every row is processed by exactly one worker; workers write shared storage only at their own indices and re-initialise every scalar accumulator for each row of their slice; condensed vectors have (n*n-n)/2 cells; threads are joined before their arguments are freed. Numeric agreement with the sequential kernels, metric axioms and bijectivity of the condensed index map are NOT decided.',
             'Trusted: clang AST; the recurrence extraction of the shape engine; worker contracts of lsv/contracts.json; square_to_condensed_index injective on i < k (assumption).',
             'DESIGN.md 2/E3, 3/C13'),
     'C11': ('shape', 'other', 'symbolic extent/index abstract interpretation of every dense kernel under its frozen conformability contract (rejected-shape baseline), with callee contracts instantiated as caller obligations; three-valued obligations with shape witnesses; cell-form extraction with symbolic indices unified with the textbook definitions; sort-shape and tolerance rules',
@@ -24,11 +24,11 @@ CLAIMED = {
             'Trusted: clang AST; lsv/contracts.json (each precondition hand-confirmed with a reason); no aliasing between distinct parameters; LP64.',
             'DESIGN.md 2/E1, 3/C11'),
     'C12': ('shape', 'other', 'guard-dominance rule for pivots (division by a diagonal element must be tested or preceded by a pivot-row store), zeroed-output typestate for accumulating kernels, plus symbolic extent analysis of the LAPACK wrappers including the documented argument sizes of dgetrf/dgetri/dgesdd/dgeev',
-            'Decides the pivoting-required clause structurally (no elimination ratio divides by an untested, unexchanged diagonal; a running pivot maximum compared with fabs holds magnitudes only) and the buffer clause (raw column-major buffers, IPIV, WORK/LWORK, s/u/vt sizes for square and rectangular input are large enough; conversions stay in range), and the zeroed-output clause: the product kernels only add into their output (derived), and every call in the solvers passes an output zeroed on every path since its last write, so least squares / pseudo-inverse return the solution and not old content + solution. M M^-1 = I, Penrose conditions, eigen-equations and reconstruction are numeric and NOT decided.',
+            'Decides the pivoting-required clause structurally (no elimination ratio divides by an untested, unexchanged diagonal; a running pivot maximum compared with fabs holds magnitudes only) and the buffer clause (raw column-major buffers, IPIV, WORK/LWORK, s/u/vt sizes for square and rectangular input are large enough; conversions stay in range), and the zeroed-output clause: the product kernels only add into their output (derived), and every call in the solvers passes an output zeroed on every path since its last write, so least squares / pseudo-inverse return the solution and not old content + solution; read as sequences of kernel calls over symbolic matrices, the pseudo-inverse and least-squares routines return (A\'A)^-1 A\' and (X\'X)^-1 X\'y on every path, and the SVD-based helper that is only valid for symmetric arguments is only handed Gram matrices. M M^-1 = I, Penrose conditions, eigen-equations and reconstruction are numeric and NOT decided.',
             'Trusted: clang AST; contracts.json; LAPACK writes only within its documented argument sizes (table in lsv/shapecheck.py).',
             'DESIGN.md 2/E1,E7c, 3/C12'),
     'C14': ('shape', 'other', 'symbolic extent/index abstract interpretation (path-sensitive, polynomial shape atoms, row/slot segment heap model, three-valued obligations with shape witnesses) applied to every public container operation from an arbitrary invariant-satisfying state, plus post-invariant, lifetime, deep-copy, slot typestate and written-cell (initialisation) rules',
-            'Discharges the history quantifier by induction: each of the ~90 container operations, from ANY argument state satisfying the container invariants, makes only in-extent accesses, uses/frees nothing after release, copies deeply and re-establishes the invariants with the updated counts; out-of-range index arguments reach an error path before any subscript. Also decides that every newly exposed cell (in storage the operation allocated) is stored to before return, so no cell below the counts is indeterminate. Which value a cell gets (old value preserved / zero), allocator failure and string contents are NOT decided.',
+            'Discharges the history quantifier by induction: each of the ~90 container operations, from ANY argument state satisfying the container invariants, makes only in-extent accesses, uses/frees nothing after release, copies deeply and re-establishes the invariants with the updated counts; an unsigned local initialised with a difference (size - 1) never wraps; out-of-range index arguments reach an error path before any subscript. Also decides that every newly exposed cell (in storage the operation allocated) is stored to before return, so no cell below the counts is indeterminate. Which value a cell gets (old value preserved / zero), allocator failure and string contents are NOT decided.',
             'Trusted: clang AST; container invariants assumed at entry and re-proved at exit; distinct parameters do not alias; LP64. UNDECIDED obligations are counted in the evidence and never alarm.',
             'DESIGN.md 2/E1, 3/C14, Appendix C'),
     'C19': ('dims+spline+simplex', 'other', 'units-of-measure inference (dimensions X^a Y^b, linear system over Q) plus statement-level computer algebra: array stores read as rational functions of symbolic cells with a symbolic index, recognition of the Thomas elimination / back-substitution recurrences, polynomial normalisation of the spline conditions; pairing typestate over the Nelder-Mead table; nothing is executed, no loop unrolled',
@@ -40,11 +40,11 @@ CLAIMED = {
             'Trusted: clang AST; ApproxEq recognised as ((v-e) < x) && (x < (v+e)); the MISSING literal from numeric.h; real arithmetic; the option order of the property statement (1 SD, 2 RMS, 3 Pareto, 4 range, 5 level).',
             'DESIGN.md 2/E6b-E7, 3/C10, 10.6 (E14, FA)'),
     'C15': ('guards+reduce', 'other', 'reduction-form abstraction (each figure of merit becomes a closed form over sums on the non-missing truths, composed symbolically and normalised as polynomials; nothing executed) plus control-dependence analysis (not-missing guard over element reads, counters and count divisors), call-graph/argument identity for RMSE, index-role typing of the statistic tables',
-            'Decides in exact arithmetic that R2, MSE, RMSE, MAE and BIAS return their defining formulas over the non-missing truths (algebraically equal rewrites normalise to the same form; RMSE^2 = MSE, R2 = 1 and zero errors for perfect prediction, R2 <= 1, MAE <= RMSE are consequences of those formulas), that missing-coded truths are ignored (every read, count and divisor is tied to the test on the truth element of the same index), and that the PLS statistic tables pair prediction column q*lv+j with truth column j into cell (lv, j). Floating-point rounding and every ROC / precision-recall clause are NOT decided.',
+            'Decides in exact arithmetic that R2, MSE, RMSE, MAE and BIAS return their defining formulas over the non-missing truths (algebraically equal rewrites normalise to the same form; RMSE^2 = MSE, R2 = 1 and zero errors for perfect prediction, R2 <= 1, MAE <= RMSE are consequences of those formulas), that missing-coded truths are ignored (every read, count and divisor is tied to the test on the truth element of the same index), and that the PLS statistic tables pair prediction column q*lv+j with truth column j into cell (lv, j). For the ROC / precision-recall constructions two structural necessary conditions of the rank-based clauses: the descending sort compares keys with a plain strict comparison and moves whole rows, and scores are never compared with an absolute tolerance (the curves depend on the order of the scores only). Floating-point rounding and the ROC / precision-recall identities themselves are NOT decided.',
             'Trusted: clang AST; ApproxEq/MISSING recognised structurally; role seeds of lsv/layout.py; real arithmetic. A function that is not a plain reduction (running recurrences, early exits) is ANALYSIS-BROKEN, never a pass.',
             'DESIGN.md 2/E5,E7, 3/C15, 10.6 (E14)'),
     'C08': ('offsets', 'other', 'affine-offset abstract interpretation (every small integer = class index + polynomial in class_start, branch-sensitive) checked at label/index comparisons, label stores and per-class subscripts; def-use rules dead-input and overwritten-store',
-            'Decides the label/index clause for both numbering conventions (a returned label is index + class_start, every per-class array is subscripted by an index, comparisons pair a label with index + class_start), the arg-max search compares against an element of the score row or a true lower bound and the input-relevance clause of the one-vs-rest statistics (both label vectors reach the ROC inputs); every per-class value appended inside a loop over the classes (priors, means, statistics) depends on the class index (no stale, loop-invariant value). The numeric value of priors and means, arg-max optimality, affine invariance and AUC values are NOT decided.',
+            'Decides the label/index clause for both numbering conventions (a returned label is index + class_start, every per-class array is subscripted by an index, comparisons pair a label with index + class_start), the arg-max search compares against an element of the score row or a true lower bound and the input-relevance clause of the one-vs-rest statistics (both label vectors reach the ROC inputs); every per-class value appended inside a loop over the classes (priors, means, statistics) depends on the class index (no stale, loop-invariant value); the code for labels numbered from 0 and from 1 is identical up to the label offset. The numeric value of priors and means, arg-max optimality, affine invariance and AUC values are NOT decided.',
             'Trusted: clang AST; class_start in {0,1}; label containers seeded by parameter position (LDA/LDAError #1, LDAPrediction #5).',
             'DESIGN.md 2/E8, 3/C08'),
     'C16': ('ioflow', 'other', 'writer/reader agreement by dataflow over the call sites (table literal, codec, model field), stream-grammar abstraction of each (de)serialiser compared structurally, SQL effect classification of the constant strings reaching sqlite3_exec/prepare with a must-precede (truncate-before-insert) check, mod/ref purity of the writers, format-precision check',
@@ -52,15 +52,15 @@ CLAIMED = {
             'Trusted: clang AST; SQL reaches the database only through sqlite3_exec / sqlite3_prepare_v2+step with constant format strings (anything else is classified OTHER and cannot discharge the truncate rule).',
             'DESIGN.md 2/E9, 3/C16'),
     'C05': ('cv', 'other', 'control-dependence partition analysis of the split code with derived train/test/selector roles, followed by dataflow into the 8 workers (no-leak), selector-consistency by polynomial equality, learner-dispatch exhaustiveness across sibling routines, create/join pairing, predicate dataflow for the rejection-sampling store, index-role typing of the residual columns',
-            'Decides the structural clauses: split is a partition by construction, held-out selector == placement selector, fit sees only training data and the held-out response is never used, every learner is dispatched and every thread joined, ids are stored only when fresh, residuals pair matching columns, per-worker prediction accumulators are fresh for every batch of bootstrap iterations (the reported value is the plain mean of the per-iteration predictions). Equality with an independently refitted model, finiteness, and that the random group matrix is a permutation at value level are NOT decided.',
+            'Decides the structural clauses: split is a partition by construction, held-out selector == placement selector, fit sees only training data and the held-out response is never used, every learner is dispatched and every thread joined, ids are stored only when fresh and the group table has rows x ceil(objects/rows) cells with the division carried out in floating point (no object is left without a group), residuals pair matching columns, per-worker prediction accumulators are fresh for every batch of bootstrap iterations (the reported value is the plain mean of the per-iteration predictions). Equality with an independently refitted model, finiteness, and that the random group matrix is a permutation at value level are NOT decided.',
             'Trusted: clang AST; roles derived from kfold_group_train_test_split control dependence; fit entry points PLS/MLR/EPLS/LDA take (x, y) first. A worker or split routine the rules cannot bind is ANALYSIS-BROKEN.',
             'DESIGN.md 2/E5-E6, 3/C05'),
     'C03': ('layout', 'other', 'index-role typing (a units-of-measure style dataflow over extents q, A, q*A and the indices ranging over them) checked at every subscript, column composition, column decomposition and column append; sibling cross-check of the fit/apply preprocessing branches; comparison-idiom rule on stored scalings; zeroed-output typestate for accumulating kernels',
-            'Decides the column-layout clause (matrices with q*A columns are produced and consumed LV-major, column c paired with response c mod q) and structural necessary conditions of the re-projection / back-transform clauses: the score predictor preprocesses with the model fields the fit filled; the fit and apply branches of MatrixPreprocess store under the same guards and tolerances; stored scalings (which may be negative) are only tested with the two-sided ApproxEq idiom, so the y back-transform is not skipped for some columns; every product kernel called in pls.c receives an output that was zeroed since it was last written. Orthogonality, the deflation arithmetic and the values of the fitted responses are NOT decided.',
+            'Decides the column-layout clause (matrices with q*A columns are produced and consumed LV-major, column c paired with response c mod q) and structural necessary conditions of the re-projection / back-transform clauses: the score predictor preprocesses with the model fields the fit filled; the fit and apply branches of MatrixPreprocess store under the same guards and tolerances; stored scalings (which may be negative) are only tested with the two-sided ApproxEq idiom, so the y back-transform is not skipped for some columns; every product kernel called in pls.c receives an output that was zeroed since it was last written; no absolute tolerance is applied to a data-scaled quantity (t't, norms) in the PLS fitting / prediction code, so small-scale data are deflated like any other. Orthogonality, the deflation arithmetic and the values of the fitted responses are NOT decided.',
             'Trusted: clang AST; the role seeds (struct fields and public parameter positions, DESIGN.md Appendix A). A subscript whose roles cannot be inferred is counted as undecided, never as a violation.',
             'DESIGN.md 2/E5, 3/C03'),
     'C18': ('loopterm', 'other', 'termination certificates: per-loop ranking argument over the structured AST (constant-step counter on every path, loop-invariant bound with callee mod summaries, capped exits incl. callee "returns non-zero when a>b" summaries) for all loops reachable in the call graph from the fitting roots',
-            'Decides the termination clause only: each of the 435 loops reachable from PCA/PLS/CPCA/KMeans/NelderMeadSimplex/CV drivers/MLR workers has a counted/capped/consuming certificate, or is one of 3 listed rejection-sampling/assumed loops, or is the one open known finding. Finiteness of components and zero-vs-NaN variance are NOT decided.',
+            'Decides the termination clause: each of the ~435 loops reachable from PCA/PLS/CPCA/KMeans/NelderMeadSimplex/CV drivers/MLR workers has a counted/capped/consuming certificate or is one of 3 listed rejection-sampling/assumed loops (the k-means++ seeding loop, formerly a known finding, is repaired and proved). One structural condition of the finiteness clause: no selection (NIPALS start vector) is driven by the column mean of a column-centred matrix, which is zero by construction. Finiteness of components in general and zero-vs-NaN variance are NOT decided.',
             'Trusted: clang AST, structured control flow, no aliasing of a container under two names inside one loop, thread counts >= 1. Unknown loop shapes are violations (no certificate), vanished roots are ANALYSIS-BROKEN.',
             'DESIGN.md 2/E4, 3/C18'),
     'C06': ('threads', 'other', 'whole-program call graph + global-write effect analysis from every pthread entry (thread escape), must-precede dataflow for seeding, structural create/join pairing, polynomial seed-schedule check',
